@@ -86,6 +86,7 @@ class Ctx:
             "shard_digest": hashlib.sha256(json.dumps(self.trace).encode()).hexdigest()[:20],
             # the same without the event traces: worlds generated and verdicts reached
             "verdict_digest": hashlib.sha256(json.dumps([[t[0], t[2]] for t in self.trace]).encode()).hexdigest()[:20],
+            "trace_head": self.trace[:400],      # kept so that a determinism mismatch can be diagnosed from the run itself
         }
 
 
@@ -415,14 +416,40 @@ def run_check(prop_id, tier, seed=None, workers=None, shards=None, examples=None
     # 3. determinism slice: the same shards once more in other interpreters under the other hash seed
     det_ok = True
     det_note = None
+    det_retries = 0
     for s, r2 in det_pairs.items():
         r1 = results.get(s)
         if r1 is None:
             continue
         if r1["verdict_digest"] != r2["verdict_digest"] or r1["examples"] != r2["examples"]:
+            # two more runs of the shard decide whether this is a one-off (reported, tolerated once) or real
+            extra = []
+            for hs in HASHSEEDS:
+                try:
+                    extra.append(run_shard_in_fresh_interpreter(prop_id, seed, s, tier, tcfg["examples"], timeout, hs))
+                except Exception as e:
+                    harness_errors.append(f"shard {s} (determinism re-run) died: {e}")
+            digs = [r1["verdict_digest"], r2["verdict_digest"]] + [x["verdict_digest"] for x in extra]
+            common = max(set(digs), key=digs.count)
+            if len(extra) == 2 and digs.count(common) >= 3 and not any(x.get("violation") for x in extra):
+                det_retries += 1
+                print(f"[{prop_id}] NOTE: shard {s}: one of four runs deviated ({digs}); three agree - treated as a one-off, "
+                      f"recorded in the evidence", flush=True)
+                if r1["verdict_digest"] != common:
+                    results[s] = extra[0]
+                continue
             det_ok = False
+            first_diff = next((i for i, (a, b) in enumerate(zip(r1.get("trace_head", []), r2.get("trace_head", []))) if a != b),
+                              min(len(r1.get("trace_head", [])), len(r2.get("trace_head", []))))
+            try:
+                with open(os.path.join(VERIF, "replays", f"nondeterminism-{prop_id}-{seed}-{s}.json"), "w") as f:
+                    json.dump({"first_diff_index": first_diff, "run1": r1.get("trace_head"), "run2": r2.get("trace_head"),
+                               "examples": [r1["examples"], r2["examples"]]}, f, indent=0)
+            except OSError:
+                pass
             harness_errors.append(f"nondeterminism: shard {s} worlds/verdicts differ between two runs "
-                                  f"({r1['verdict_digest']} vs {r2['verdict_digest']})")
+                                  f"({r1['verdict_digest']} vs {r2['verdict_digest']}; examples {r1['examples']} vs "
+                                  f"{r2['examples']}; first differing world #{first_diff})")
         elif r1["shard_digest"] != r2["shard_digest"]:
             # same worlds, same verdicts, different event logs: the code under test makes choices the simulator does
             # not own (e.g. names of temporary files).  Worth knowing, not a reason to distrust the verdicts.
@@ -473,6 +500,7 @@ def run_check(prop_id, tier, seed=None, workers=None, shards=None, examples=None
     wall = time.time() - t0
     ev = build_evidence(mod, prop_id, tier, seed, tcfg, results, det_ok, len(det_pairs), known_seen,
                         violations, harness_errors, wall, workers, lines)
+    ev["coverage"]["determinism_one_off_deviations"] = det_retries
     if write_evidence:
         os.makedirs(os.path.join(VERIF, "evidence"), exist_ok=True)
         with open(os.path.join(VERIF, "evidence", f"{prop_id}.json"), "w") as f:
